@@ -258,7 +258,36 @@ def body_for(cfg, name, k, same=None):
     raise AssertionError(name)
 
 
+class debug_logging:
+    """the process runs with DEBUG logging switched on for the pjrpc loggers - from before the client object is constructed"""
+    def __init__(self, on):
+        self.on = on
+
+    def __enter__(self):
+        import logging
+        if self.on:
+            self.h = logging.NullHandler()
+            self.lg = logging.getLogger('pjrpc')
+            self.old = (logging.root.manager.disable, self.lg.level)
+            logging.disable(logging.NOTSET)
+            self.lg.setLevel(logging.DEBUG)
+            self.lg.addHandler(self.h)
+
+    def __exit__(self, *a):
+        import logging
+        if self.on:
+            self.lg.removeHandler(self.h)
+            self.lg.setLevel(self.old[1])
+            logging.disable(self.old[0])
+        return False
+
+
 def execute(cfg, env, horizon=12):
+    with debug_logging(cfg.get('debug_log')):
+        return _execute(cfg, env, horizon)
+
+
+def _execute(cfg, env, horizon=12):
     """
     cfg: kind sync|async, request single|batch|notification|notifbatch, client_strategy, request_strategy
     ('unset' | None | dict), tracers (int), ctx ('default'|'supplied'), via ('call'|'send'), c19 (bool)
